@@ -576,6 +576,32 @@ Definition parse_stub (ls : list str) : option stub :=
 Definition parse_text (text : str) : option stub := parse_stub (split 10 text).
 
 (* ------------------------------------------------------------------------------------------ *)
+(* the preconditions of the C20 theorems, as boolean predicates on a case (evaluated on every   *)
+(* correspondence case: the last component of the observation)                                *)
+(* ------------------------------------------------------------------------------------------ *)
+Definition opt_ok (o : option str) : bool := match o with Some v => is_ident v | None => true end.
+
+(* the names getfullargspec reports are identifiers; the annotation keys are parameter names or "return" *)
+Definition spec_names_ok (sp : argspec) : bool :=
+  forallb is_ident (as_args sp) && forallb is_ident (as_kwonly sp) && opt_ok (as_varargs sp) && opt_ok (as_varkw sp)
+  && forallb is_ident (map fst (as_anns sp)).
+
+Definition spec_ok (sp : argspec) : bool := spec_names_ok sp && negb (known_F45 sp).
+Definition methods_ok (fs : list (str * fkind)) : bool :=
+  forallb (fun kf => match snd kf with KMethod sp => spec_ok sp | _ => true end) fs.
+
+Definition aobj_ok (a : aobj) : bool := match typestr a with Ok t => typestr_ok t | _ => true end.
+Definition meth_ok (sp : argspec) : bool := spec_ok sp && forallb aobj_ok (map snd (as_anns sp)).
+Definition field_ok (kf : str * fkind) : bool :=
+  is_ident (fst kf) && match snd kf with KVirtual a => aobj_ok a | KField a => aobj_ok a | KMethod sp => meth_ok sp end.
+Definition fields_ok (fs : list (str * fkind)) : bool := forallb field_ok fs.
+Definition class_ok (tgt : target) (cn : option str) : bool :=
+  match class_name_of tgt cn with Ok n => is_ident n | _ => true end.
+
+Definition in_domain (tgt : target) (cn : option str) (fs : list (str * fkind)) : bool :=
+  class_ok tgt cn && fields_ok fs.
+
+(* ------------------------------------------------------------------------------------------ *)
 (* observation of a case (stream `stubs`)                                                     *)
 (* ------------------------------------------------------------------------------------------ *)
 Definition o_ostr (o : option str) : pyval := match o with Some s => PStr s | None => PNone end.
@@ -601,7 +627,8 @@ Definition run_stubs (c : target * option str * list (str * fkind)) : pyval :=
   match fst (generate_stub_io tgt cn fs) with
   | Ok text => PTuple [o_str "ok"; PStr text;
                        match parse_text text with Some s => o_stub s | None => PNone end;
-                       PList 0 (map PStr (snd (generate_stub_io tgt cn fs)))]
+                       PList 0 (map PStr (snd (generate_stub_io tgt cn fs)));
+                       PBool (in_domain tgt cn fs)]
   | Err e => PTuple [o_str "err"; o_errk e]
   | Unmodelled => o_str "unmodelled"
   end.
